@@ -158,7 +158,15 @@ func control(args []string) int {
 		out.Detail = fmt.Sprintf("the fragment this control edits occurs %d times in %s (need exactly 1): the code changed, the control says nothing", strings.Count(string(src), ctl.Old), ctl.File)
 		return emit()
 	}
-	c.Overlay = map[string][]byte{file: []byte(strings.Replace(string(src), ctl.Old, ctl.New, 1))}
+	mutated := strings.Replace(string(src), ctl.Old, ctl.New, 1)
+	if ctl.Old2 != "" {
+		if strings.Count(mutated, ctl.Old2) != 1 {
+			out.Outcome, out.Detail = "skipped", "second fragment of the control not found exactly once"
+			return emit()
+		}
+		mutated = strings.Replace(mutated, ctl.Old2, ctl.New2, 1)
+	}
+	c.Overlay = map[string][]byte{file: []byte(mutated)}
 	c.Quiet = true
 	func() {
 		defer func() {
